@@ -1,5 +1,6 @@
 import LapyVerif.Props.C13
 import LapyVerif.Bridge.Measures
+import LapyVerif.Props.C13b
 /- axiom audit of C13 -/
 #print axioms LapyVerif.Props.C13.heron_eq_cross
 #print axioms LapyVerif.Props.C13.area_eq_sum
@@ -24,3 +25,10 @@ import LapyVerif.Bridge.Measures
 #print axioms LapyVerif.Bridge.meas_normal
 #print axioms LapyVerif.Bridge.meas_qualities
 #print axioms LapyVerif.Bridge.meas_total
+#print axioms LapyVerif.Lemmas.balanced_sum_zero
+#print axioms LapyVerif.Lemmas.balanced_sum_zero_v3
+#print axioms LapyVerif.Props.C13.dirKeys_arcBalanced
+#print axioms LapyVerif.Props.C13.halfEdgeCount_symm
+#print axioms LapyVerif.Props.C13.vector_area_zero
+#print axioms LapyVerif.Props.C13.volume_translation_inv
+#print axioms LapyVerif.Props.C13.volume_translation_inv'
